@@ -35,6 +35,7 @@ else:
 
 from explorerscript.cli import SETTINGS_PERFORMANCE_PROGRESS_LIST_VAR_NAME, check_settings, SETTINGS
 from explorerscript.ssb_converting.ssb_compiler import ExplorerScriptSsbCompiler
+from explorerscript.ssb_converting.ssb_special_ops import OPS_WITH_JUMP_TO_MEM_OFFSET
 from explorerscript.ssb_converting.ssb_data_types import (
     SsbRoutineInfo,
     SsbOperation,
@@ -65,12 +66,24 @@ class RoutineDict(TypedDict):
     ops: list[OpDict]
 
 
-def build_ops(ops: list[SsbOperation]) -> list[OpDict]:
+def build_ops(ops: list[SsbOperation], op_indices: dict[int, int] | None = None) -> list[OpDict]:
+    """
+    op_indices maps the internal offsets of all operations of the script to their (1-based) index in the
+    list of all operations. If given, the jump targets of the operations are converted with it.
+    """
     out_ops: list[OpDict] = []
     for op in ops:
         out_op: OpDict = {"opcode": op.op_code.name, "params": []}
-        for param in op.params:
+        for param_i, param in enumerate(op.params):
             if isinstance(param, int):
+                if (
+                    op_indices is not None
+                    and op.op_code.name in OPS_WITH_JUMP_TO_MEM_OFFSET
+                    and param_i == len(op.params) - 1
+                ):
+                    # The compiler's offsets have gaps (for operations it removed), the documented structure counts
+                    # the operations that are in the list.
+                    param = op_indices[param]
                 out_op["params"].append(param)
             elif isinstance(param, SsbOpParamFixedPoint):
                 out_op["params"].append({"type": "FIXED_POINT", "value": param.value})
@@ -94,29 +107,33 @@ def build_routines_json(
     routine_infos: list[SsbRoutineInfo], named_coroutines: list[str], routine_ops: list[list[SsbOperation]]
 ) -> list[RoutineDict]:
     routines: list[RoutineDict] = []
+    op_indices: dict[int, int] = {}
+    for ops in routine_ops:
+        for op in ops:
+            op_indices[op.offset] = len(op_indices) + 1
     for info, name, ops in zip(routine_infos, named_coroutines, routine_ops):
         routine: RoutineDict
         if info.type == SsbRoutineType.COROUTINE:
-            routine = {"type": "COROUTINE", "name": name, "ops": build_ops(ops)}
+            routine = {"type": "COROUTINE", "name": name, "ops": build_ops(ops, op_indices)}
         elif info.type == SsbRoutineType.GENERIC:
-            routine = {"type": "GENERIC", "ops": build_ops(ops)}
+            routine = {"type": "GENERIC", "ops": build_ops(ops, op_indices)}
         elif info.type == SsbRoutineType.ACTOR:
             routine = {
                 "type": "ACTOR",
                 "target_id": info.linked_to if info.linked_to is not -1 else info.linked_to_name,
-                "ops": build_ops(ops),
+                "ops": build_ops(ops, op_indices),
             }
         elif info.type == SsbRoutineType.OBJECT:
             routine = {
                 "type": "OBJECT",
                 "target_id": info.linked_to if info.linked_to is not -1 else info.linked_to_name,
-                "ops": build_ops(ops),
+                "ops": build_ops(ops, op_indices),
             }
         elif info.type == SsbRoutineType.PERFORMER:
             routine = {
                 "type": "PERFORMER",
                 "target_id": info.linked_to if info.linked_to is not -1 else info.linked_to_name,
-                "ops": build_ops(ops),
+                "ops": build_ops(ops, op_indices),
             }
         else:
             raise ValueError(f"invalid routine type {info.type}")
